@@ -72,6 +72,30 @@ def rule_a_as(ctx, rid):
     rule_a(_Proxy(ctx))
 
 
+def rule_g_as(ctx, rid):
+    """the error-discipline rule reported under another property's id (a swallowed error also drops the text that was
+    being rendered: C03)"""
+    class _Proxy:
+        def __init__(self, c):
+            self._c = c
+
+        def __getattr__(self, n):
+            return getattr(self._c, n)
+
+        def check(self, okc, _rid, *a, **k):
+            return self._c.check(okc, rid, *a, **k)
+
+        def violation(self, _rid, *a, **k):
+            return self._c.violation(rid, *a, **k)
+
+        def ok(self, _rid, *a, **k):
+            return self._c.ok(rid, *a, **k)
+
+        def floor(self, _rid, *a, **k):
+            return self._c.floor(rid, *a, **k)
+    rule_g(_Proxy(ctx))
+
+
 def rule_a(ctx):
     F = ctx.facts
     b = F.one("RenderTree::render_with_context")
